@@ -940,4 +940,169 @@ Proof.
         -- rewrite Ht'. apply Tok_rw; auto.
 Qed.
 
+(* ---------- one step ---------- *)
+Lemma noticed_settle tid X : L < length (ths X) -> noticed L X c -> noticed L (settle nt tid X) c.
+Proof.
+  intros Hl Hn. unfold settle. destruct (t_pc (get_th X tid)) eqn:E; auto.
+  destruct (Nat.eq_dec tid L) as [->|Hne].
+  - unfold noticed in Hn. rewrite E in Hn. destruct exc as [c'|]; [|contradiction]. subst c'.
+    destruct (first_alive _ _ _); unfold noticed; rewrite get_th_set_th_eq by auto; reflexivity.
+  - destruct (first_alive _ _ _); unfold noticed; rewrite get_th_set_th_neq by auto; exact Hn.
+Qed.
+
+Lemma Tok_not_join i t : i <= L -> Tok i t -> forall k exc, t_pc t <> PJoin k exc.
+Proof.
+  intros Hi (_ & _ & H3 & H4) k exc E. destruct (Nat.eq_dec i L) as [->|Hne].
+  - destruct (H3 eq_refl); congruence.
+  - destruct H4 as [H4 _]; [lia|]. rewrite E in H4. exact H4.
+Qed.
+
+Lemma Inv_step st tid st' : Inv st -> nstep nt st tid = Some st' -> Inv st' \/ noticed L st' c.
+Proof.
+  intros HI Hstep. pose proof HI as [Hsh [Hmb Hth]].
+  unfold nstep in Hstep. destruct (nth_error (ths st) tid) as [t|] eqn:Et; [|discriminate].
+  destruct (t_enabled nt st t) eqn:Een; [|discriminate]. inversion Hstep; subst st'. clear Hstep.
+  assert (Hlt : tid < length (ths st)) by (apply nth_error_Some; congruence).
+  assert (Htid : tid <= L) by (rewrite (sh_nt _ Hsh) in Hlt; lia).
+  pose proof (get_th_nth _ _ _ Et) as Hg. subst t.
+  assert (HshX : shape (thread_step nt tid st (get_th st tid))).
+  { apply (shape_sig st); [apply (sig_thread_step nt tid st _ Et) | auto]. }
+  pose proof (Hth tid Htid) as HT.
+  assert (HX : Inv (thread_step nt tid st (get_th st tid)) \/ noticed L (thread_step nt tid st (get_th st tid)) c).
+  { destruct HT as (_ & _ & HT3 & HT4).
+    assert (Hstage : t_pc (get_th st tid) <> PRead -> t_pc (get_th st tid) <> PReadWait -> tid < L).
+    { intros H1 H2. destruct (Nat.eq_dec tid L) as [E|E]; [|lia]. destruct (HT3 E); contradiction. }
+    assert (Hrd : t_pc (get_th st tid) = PRead \/ t_pc (get_th st tid) = PReadWait -> exists p, tid = S p /\ p < L).
+    { intros H. destruct tid as [|p]; [|exists p; split; auto; lia].
+      exfalso. destruct HT4 as [H4 _]; [lia|]. destruct H as [H|H]; rewrite H in H4; lia. }
+    unfold thread_step in *. unfold t_enabled in Een.
+    destruct (t_pc (get_th st tid)) eqn:Hpc; try discriminate.
+    - left. apply (gate_case st tid false oi); auto. apply Hstage; discriminate.
+    - left. apply (gate_case st tid true oi); auto. apply Hstage; discriminate.
+    - destruct Hrd as [p [-> Hp]]; auto. apply (read_case st p false); auto.
+    - destruct Hrd as [p [-> Hp]]; auto. apply (read_case st p true); auto.
+    - left. apply (send_case st tid false oi m closing); auto. apply Hstage; discriminate.
+    - left. apply (send_case st tid true oi m closing); auto. apply Hstage; discriminate.
+    - left. apply (killout_case st tid oi e); auto. apply Hstage; discriminate.
+    - exfalso. destruct HT4 as [H4 _]; [apply Hstage; discriminate | exact H4].
+    - exfalso. destruct HT4 as [H4 _]; [apply Hstage; discriminate | exact H4].
+    - exfalso. destruct HT4 as [H4 _]; [apply Hstage; discriminate | exact H4]. }
+  destruct HX as [HIX | HnX].
+  - left. rewrite settle_other; auto.
+    intros k exc. apply (Tok_not_join tid); auto. destruct HIX as [_ [_ H]]. apply H. auto.
+  - right. apply noticed_settle; auto.
+    destruct (sig_lengths _ _ (sig_thread_step nt tid st _ Et)) as [_ Hl]. rewrite Hl, (sh_nt _ Hsh). lia.
+Qed.
+
+Lemma Inv_run sched : forall st st', Inv st -> nrun nt st sched = Some st' ->
+  Inv st' \/ exists s1 s2 st1, sched = s1 ++ s2 /\ nrun nt st s1 = Some st1 /\ noticed L st1 c /\ nrun nt st1 s2 = Some st'.
+Proof.
+  induction sched as [|t rest IH]; intros st st' HI Hr; cbn in Hr.
+  - inversion Hr; subst. auto.
+  - destruct (nstep nt st t) as [sa|] eqn:E; [|discriminate].
+    destruct (Inv_step _ _ _ HI E) as [HIa | Hn].
+    + destruct (IH _ _ HIa Hr) as [H | (s1 & s2 & st1 & -> & H1 & H2 & H3)]; auto.
+      right. exists (t :: s1), s2, st1. cbn. rewrite E. auto.
+    + right. exists [t], rest, sa. cbn. rewrite E. auto.
+Qed.
+
+(* ---------- no deadlock before the caller has noticed ---------- *)
+Lemma nth_get st i : i < length (ths st) -> nth_error (ths st) i = Some (get_th st i).
+Proof.
+  intros H. destruct (nth_error (ths st) i) as [t|] eqn:E.
+  - rewrite (get_th_nth _ _ _ E). reflexivity.
+  - apply nth_error_None in E. lia.
+Qed.
+
+Lemma reader_sig st j : shape st -> j < L -> exists k, tsig (get_th st (S j)) = (k, [(j, 0)]).
+Proof.
+  intros Hsh Hj. destruct (Nat.eq_dec (S j) L) as [E|E].
+  - exists (KMain relay). rewrite E, (sh_main _ Hsh). replace (L - 1) with j by lia. reflexivity.
+  - exists (KStage N (S j)). rewrite (sh_st _ Hsh (S j)) by lia. reflexivity.
+Qed.
+
+Section Quiet.
+Variable st : nstate.
+Hypothesis HI : Inv st.
+Hypothesis HW : Wn st.
+Hypothesis Hq : quiescent nt st.
+
+Lemma q_disabled i : i <= L -> t_enabled nt st (get_th st i) = false.
+Proof.
+  intros Hi. destruct HI as [Hsh _]. specialize (Hq i). unfold nenabled in Hq.
+  rewrite nth_get in Hq by (rewrite (sh_nt _ Hsh); lia). exact Hq.
+Qed.
+Lemma q_tok i : i <= L -> tok st (get_th st i).
+Proof.
+  intros Hi. destruct HI as [Hsh _]. destruct HW as [H _]. apply (H i).
+  apply nth_get. rewrite (sh_nt _ Hsh). lia.
+Qed.
+
+Lemma stuck_step j :
+  j < L -> (forall j', S j' = j -> t_pc (get_th st (S j')) = PReadWait -> False) ->
+  t_pc (get_th st (S j)) = PReadWait -> False.
+Proof.
+  intros Hj IH Hpc. pose proof HI as [Hsh [Hmb Hth]].
+  destruct (Hmb j Hj) as [HM [HS HR]].
+  pose proof (Hth j (Nat.lt_le_incl _ _ Hj)) as HTs.
+  pose proof (Hth (S j) Hj) as HTr.
+  set (r := get_th st (S j)) in *. set (s := get_th st j) in *. set (m := get_mb st j) in *.
+  assert (Hren : t_enabled nt st r = false) by (apply q_disabled; lia).
+  unfold t_enabled in Hren. rewrite Hpc in Hren.
+  assert (Htr : tok st r) by (apply q_tok; lia).
+  destruct Htr as [Hwo _]. specialize (Hwo Hren). unfold wait_ok in Hwo. rewrite Hpc in Hwo.
+  destruct (reader_sig st j Hsh Hj) as [k Hsig]. fold r in Hsig.
+  assert (Hfi : t_fi r = 0) by apply HTr.
+  destruct (cur_r_of r k j Hsig Hfi) as [_ [Hrmb _]].
+  rewrite Hrmb in Hwo. fold m in Hwo. destruct Hwo as [Hno Hnk].
+  destruct HR as [[Hn _] [Hw Hrdp]]. rewrite Hpc in Hw, Hrdp. destruct Hrdp as [_ HnN].
+  rewrite Hn in Hno. rewrite (has_lt j m HM) in Hno. apply Nat.ltb_ge in Hno.
+  pose proof (mo_le _ _ HM) as Hle. assert (Heq : mb_nsent m = sb_nread (sub0 m)) by lia.
+  assert (Hsen : t_enabled nt st s = false) by (apply q_disabled; lia).
+  assert (Hts : tok st s) by (apply q_tok; lia).
+  destruct Hts as [Hswo _].
+  destruct HS as [_ HS]. specialize (HS Hnk).
+  assert (Hk : t_kind s = KStage N j).
+  { pose proof (sh_st _ Hsh j Hj) as Hs. unfold tsig, stage_sig in Hs. fold s in Hs. congruence. }
+  destruct (sh_mb _ Hsh j Hj) as [cap [Hms Hcap]]. fold m in Hms. unfold msig in Hms.
+  rewrite (mo_subs _ _ HM) in Hms. cbn in Hms.
+  assert (Hdrive : sb_drive (sub0 m) = true) by congruence.
+  assert (Hcapm : mb_cap m = cap) by congruence.
+  unfold t_enabled in Hsen. unfold wait_ok in Hswo.
+  destruct (t_pc s) eqn:Eps; try discriminate; try contradiction.
+  - (* waiting at the fetch gate: the reader is waiting for a message that is not there, so _can_fetch holds *)
+    specialize (Hswo Hsen). rewrite (out_mb_stage _ _ _ _ Hk) in Hswo. fold m in Hswo.
+    unfold mb_can_fetch in Hswo. rewrite Hnk, (mo_subs _ _ HM) in Hswo. cbn [existsb] in Hswo.
+    unfold sb_waits_in, sb_drives in Hswo. rewrite Hw, Hn, (has_lt j m HM), Hdrive in Hswo.
+    replace (sb_nread (sub0 m) <? mb_nsent m) with false in Hswo by (symmetry; apply Nat.ltb_ge; lia).
+    cbn in Hswo. discriminate.
+  - (* waiting for its own input: one mailbox further up *)
+    destruct HTs as (_ & _ & _ & H4). destruct (H4 Hj) as [H5 _]. rewrite Eps in H5.
+    destruct j as [|j']; [lia|]. apply (IH j'); auto.
+  - (* waiting for room: the box is empty *)
+    specialize (Hswo Hsen). rewrite (out_mb_stage _ _ _ _ Hk) in Hswo. fold m in Hswo.
+    unfold mb_can_write, mb_room in Hswo. rewrite Hnk, orb_false_r in Hswo.
+    rewrite (mo_box _ _ HM) in Hswo. rewrite seg_length in Hswo by (rewrite MS_length; pose proof (mo_bound _ _ HM); lia).
+    apply Nat.ltb_ge in Hswo. lia.
+  - (* done: the end marker is in the box *)
+    pose proof (mo_closed _ _ HM) as Hc. rewrite HS in Hc. symmetry in Hc. apply Nat.eqb_eq in Hc. lia.
+Qed.
+
+Lemma reader_never_stuck j : j < L -> t_pc (get_th st (S j)) = PReadWait -> False.
+Proof.
+  induction j as [|j' IH]; intros Hj Hpc.
+  - apply (stuck_step 0 Hj); auto. intros j' E. discriminate.
+  - apply (stuck_step (S j') Hj); auto. intros j'' E. injection E as ->. apply IH. lia.
+Qed.
+
+Lemma no_deadlock : False.
+Proof.
+  pose proof HI as [Hsh [Hmb Hth]].
+  destruct (Hth L (le_n _)) as (_ & _ & H3 & _).
+  pose proof (q_disabled L (le_n _)) as Hen. unfold t_enabled in Hen.
+  destruct (H3 eq_refl) as [E|E]; rewrite E in Hen; [discriminate|].
+  apply (reader_never_stuck (L - 1)); [lia|]. replace (S (L - 1)) with L by lia. exact E.
+Qed.
+End Quiet.
+
 End Chain.
